@@ -95,7 +95,8 @@ JudgeUrlFor(tb, e) ==
 JudgeRedirect(tb, e) ==
     LET orig == Resolve(tb, e.host, Canon(PathOnly(e.raw)), e.method)
         lp == PathOnly(e.loc)
-    IN IF ~e.hasloc THEN
+    IN IF e.status >= 500 THEN Hard("MiddlewareRaised")
+       ELSE IF ~e.hasloc THEN
             (IF orig.t = "match" /\ e.status # 200 THEN Hard("ResolvableButNotServed") ELSE Clean)
        ELSE IF ~OnSite(e.loc) THEN Hard("RedirectOffSite")
        ELSE IF orig.t = "match" THEN Hard("RedirectOfResolvablePath")
